@@ -88,6 +88,7 @@ type world struct {
 	endSession bool
 	actualRefresh *tokenAnswer // the answer the provider actually gave to the refresh grant of the current request
 	esQuery    url.Values // parameters the published end-session endpoint carries itself
+	esBad      bool       // the published end-session endpoint is not a URL (an unexpanded placeholder): logout cannot redirect there, but it still ends the session
 	otherRouter http.Handler // another middleware instance of the same process with templated headers of its own (not part of the model)
 	grace    int
 	logout   string
@@ -198,6 +199,14 @@ func newWorld(sc int, rng interface{ Intn(int) int }) *world {
 	w.grace = []int{60, 60, 300, 30}[rng.Intn(4)]
 	w.endSession = rng.Intn(4) != 0
 	w.p.endSession = w.endSession
+	if w.endSession && sc%7 == 5 { // a provider whose document names an end-session endpoint that is not a URL (a placeholder nobody expanded)
+		if w.p.doc == nil {
+			w.p.doc = M{}
+		}
+		w.p.doc["end_session_endpoint"] = issuerURL + ":${IDP_PORT}/oidc/logout"
+		w.esBad = true
+		T.stat("handler.discovery-document.end-session-not-a-url")
+	}
 	if w.endSession && sc%7 == 3 { // an end-session endpoint that carries parameters of its own (policy, locale), as some providers publish
 		if w.p.doc == nil {
 			w.p.doc = M{}
@@ -279,7 +288,7 @@ func newWorld(sc int, rng interface{ Intn(int) int }) *world {
 		tn = append(tn, http.CanonicalHeaderKey(t.name))
 	}
 	es := ""
-	if w.endSession {
+	if w.endSession && !w.esBad { // (with an unusable endpoint the model is told there is none; the logout answer itself is then not compared)
 		es = issuerURL + "/logout"
 	}
 	pl := w.postLogout
@@ -950,6 +959,13 @@ func (w *world) observe(rs reqSpec, r *http.Request, clientHdrs [][]string, rec 
 	if rs.withhold {
 		stepM["withheld"] = true
 	}
+	if w.esBad && path == w.logout && rec.Code == 500 {
+		// the answer to a logout that cannot build its redirect: only what it does to the session is compared
+		for _, k := range []string{"class", "code", "loc", "body", "msg"} {
+			delete(obs, k)
+		}
+		obs["logout500"] = true
+	}
 	w.rec(stepM)
 	T.stat("handler.class." + fmt.Sprint(obs["class"]))
 	w.oracles(rs, path, query, obs, rec, d, forwarded, calls, panicked, setCookies, body, ct)
@@ -1065,7 +1081,7 @@ func (w *world) oracles(rs reqSpec, path string, query url.Values, obs M, rec *h
 		T.oracle("C17", "handler panicked", M{"panic": trunc(panicked, 300), "note": rs.note}, w.replay())
 	}
 	if rec.Code >= 500 && panicked == "" {
-		providerFault := false
+		providerFault := w.esBad && path == w.logout // (the provider publishes an end-session endpoint that is not a URL)
 		for _, a := range []*tokenAnswer{rs.exchange, rs.refresh} {
 			if a != nil && (a.kind == "500" || a.kind == "neterr" || a.kind == "malformed" || a.kind == "noidtoken" || a.kind == "invalid_client") {
 				providerFault = true
